@@ -7,8 +7,9 @@ CONSTANTS
   OutKeys <- AOutKeys
   InKeys <- AInKeys
   Senders = {2}
+  Mirror = TRUE
   Codes = {"unreachable", "denied"}
 VIEW View
-INVARIANTS TypeOK PolicyHolds EntriesSound
-PROPERTIES ErrScoped OnlyNamed NeverBetter
+INVARIANTS TypeOK EntriesSound
+PROPERTIES PolicyHoldsA ErrScoped OnlyNamed NeverBetter
 CHECK_DEADLOCK FALSE
